@@ -359,6 +359,8 @@ func ruleR12(c *Ctx) *RuleResult {
 			case "-1":
 				if g := successGuard(p, cs.store.Block()); g != "" {
 					factsC = append(factsC, p.FuncKey(cs.fn)+": guarded by "+g)
+				} else if g, ok := callersGuard(p, cs.fn); ok {
+					factsC = append(factsC, p.FuncKey(cs.fn)+": a helper the pinned tree does not know, every call of which is guarded by "+g)
 				} else {
 					badC = append(badC, "decrement in "+where+" is not guarded by a success condition")
 				}
@@ -1376,4 +1378,39 @@ func byFuncKey(p *Prog, key string) *ssa.Function {
 		}
 	}
 	return nil
+}
+
+// callersGuard: fn is a helper the pinned tree does not know (an extracted piece of a known function); every call of it in its
+// package stands under a success condition.
+func callersGuard(p *Prog, fn *ssa.Function) (string, bool) {
+	if p.KnownFunc(fn) {
+		return "", false
+	}
+	theProg = p
+	n := 0
+	var gs []string
+	for _, caller := range callersInPackage(fn) {
+		for _, b := range caller.Blocks {
+			for _, in := range b.Instrs {
+				call, ok := in.(*ssa.Call)
+				if !ok {
+					continue
+				}
+				cal := StaticCallee(&call.Call)
+				if cal == nil || (cal != fn && cal.Origin() != fn && origin(cal) != origin(fn)) {
+					continue
+				}
+				n++
+				g := successGuard(p, b)
+				if g == "" {
+					return "", false
+				}
+				gs = append(gs, g)
+			}
+		}
+	}
+	if n == 0 {
+		return "", false
+	}
+	return strings.Join(dedup(gs), " / "), true
 }
